@@ -625,6 +625,15 @@ def consumer_jobs(r, tier, pool, path):
         if idx and r.random() < 0.5:
             job['start'] = r.randrange(len(idx))
         jobs.append(job)
+    # arrays made ONLY of booleans and numbers (Python itself would order them as numbers: a sort must not), appended with a generator of their
+    # own so that the stream above is unchanged
+    r2 = core.rng('c11-boolnum')
+    mix = by_type.get('boolean', []) + by_type.get('number', [])
+    if by_type.get('boolean') and by_type.get('number'):
+        for _ in range(400 if big else 60):
+            idx = [r2.choice(by_type['boolean']) if r2.random() < 0.4 else r2.choice(mix) for _ in range(r2.randint(2, 9))]
+            jobs.append({'pool': path, 'kind': 'sort', 'idx': idx})
+            jobs.append({'pool': path, 'kind': 'minmax', 'idx': idx[:8]})
     return jobs
 
 
